@@ -19,6 +19,9 @@ func replayOther(t *Tracer, rs *replayState, name string, e map[string]interface
 	if concReplay(t, name, e, c, *st) {
 		return true
 	}
+	if miscReplay(t, name, e) {
+		return true
+	}
 	switch name {
 	case "scan":
 		if *st != nil {
